@@ -343,7 +343,7 @@ impl Rasn {
                         tld,
                         self.to_rust_title_case(&ty.as_str()),
                         self.to_rust_enum_identifier(variant_name),
-                        self.value_to_tokens(inner_value, None)?
+                        self.choice_inner_value_to_tokens(inner_value)?
                     )
                 } else {
                     call_template!(
@@ -352,7 +352,7 @@ impl Rasn {
                         tld,
                         self.to_rust_title_case(&ty.as_str()),
                         self.to_rust_enum_identifier(variant_name),
-                        self.value_to_tokens(inner_value, None)?,
+                        self.choice_inner_value_to_tokens(inner_value)?,
                         self.config.no_std_compliant_bindings
                     )
                 }
@@ -403,9 +403,7 @@ impl Rasn {
             ASN1Value::LinkedStructLikeValue(s) => {
                 let members = s
                     .iter()
-                    .map(|(_, ty, val)| {
-                        self.value_to_tokens(val.value(), self.type_to_tokens(ty).ok().as_ref())
-                    })
+                    .map(|(_, ty, val)| self.struct_member_value_to_tokens(ty, val.value()))
                     .collect::<Result<Vec<TokenStream>, _>>()?;
                 call_template!(
                     self,
@@ -488,11 +486,22 @@ impl Rasn {
                     self.config.no_std_compliant_bindings
                 )
             }
+            // the list of a SET OF type is a `SetOf`, not a `Vec`
+            ASN1Value::LinkedArrayLikeValue(_) => {
+                let list = self.value_to_tokens(&tld.value, None)?;
+                call_template!(
+                    self,
+                    lazy_static_value_template,
+                    tld,
+                    self.to_rust_title_case(&ty.as_str()),
+                    assignment!(self, &ty.as_str(), quote!(#list.into())),
+                    self.config.no_std_compliant_bindings
+                )
+            }
             ASN1Value::BitString(_)
             | ASN1Value::Time(_)
             | ASN1Value::LinkedCharStringValue(_, _)
             | ASN1Value::ObjectIdentifier(_)
-            | ASN1Value::LinkedArrayLikeValue(_)
             | ASN1Value::ElsewhereDeclaredValue { .. }
             | ASN1Value::OctetString(_) => call_template!(
                 self,
